@@ -64,13 +64,37 @@ theorem hashInput_collision :
 
 /-! ## Copies and round trips -/
 
-/-- **`copy()`** (and pickling, both deep copies: the fresh slot holds the same value) yields an
-equal grid with the same hash input, and the source slot is untouched. -/
-theorem copy_eq (st : Store) (g : Grid) (h : g.coords.WF) :
-    (st.push g)[st.length]? = some g ∧ g.eq g = true ∧ (∀ j, j < st.length → (st.push g)[j]? = st[j]?) := by
-  refine ⟨by simp [Store.push], eq_refl g h, ?_⟩
-  intro j hj
-  simp [Store.push, List.getElem?_append_left hj]
+/-- **Identity does not depend on the weights**: replacing the stored weights by anything (in
+particular caching the automatic weights, which reading `grid.weights` does behind the user's back)
+changes neither `==` against any grid nor the bytes fed to the hash.  (This replaces the former
+`copy_eq`, which only restated the value semantics of the model's store; that a `copy()`, a pickle or
+a dictionary round trip *is* the same value is carried by the correspondence — the `rt copy|dict|pickle`
+operations are compared through `show`, the full `==` matrix and the exact hash — and by
+`dict_roundtrip` below.) -/
+theorem eq_weights_irrelevant (g h : Grid) (w : Weights) :
+    ({ g with weights := w } : Grid).eq h = g.eq h ∧ h.eq { g with weights := w } = h.eq g ∧
+    ({ g with weights := w } : Grid).hashInput = g.hashInput := ⟨rfl, rfl, rfl⟩
+
+/-- **Materialising the weights** (`grid.weights` read for the first time, model `Grid.materialize`,
+driver op `mat`) yields a grid equal to the one before, with the same hash input. -/
+theorem materialize_eq (g g' : Grid) (hw : g.coords.WF) (h : g.materialize = some g') :
+    g'.eq g = true ∧ g.eq g' = true ∧ g'.hashInput = g.hashInput := by
+  simp only [Grid.materialize, Option.map_eq_some_iff] at h
+  obtain ⟨w, _, rfl⟩ := h
+  exact ⟨eq_refl g hw, eq_refl g hw, rfl⟩
+
+/-- … and so does scaling by one / shifting by zero, whatever happened to the weights on the way:
+`scale` materialises the weights, the identity stays. -/
+theorem scale_one_eq (g g' : Grid) (hw : g.coords.WF) (hc : g.system = .cartesian)
+    (h : g.scale (.scalar 1) = some g') : g'.eq g = true ∧ g'.hashInput = g.hashInput := by
+  simp only [Grid.scale, hc, Option.map_eq_some_iff] at h
+  obtain ⟨w, _, rfl⟩ := h
+  have hc1 : g.coords.scale (List.replicate g.coords.ndim 1) = g.coords := Coords.scale_one g.coords
+  simp only [Grid.eq, Grid.hashInput, ScaleArg.factors, hc1, hc, decide_true, Bool.true_and]
+  exact ⟨Coords.eq_self hw, trivial⟩
+
+example : ∃ g g' : Grid, g.coords.WF ∧ g.materialize = some g' ∧ g'.weights ≠ g.weights :=
+  ⟨⟨.cartesian, .regular [⟨1 / 2, 3, 0⟩], .none⟩, _, by decide, rfl, by decide⟩
 
 /-- **`Grid.from_dict(g.to_dict())` is `g`** (coordinates, system and stored weights). -/
 theorem dict_roundtrip (g : Grid) : Grid.fromDict g.toDict = some g := by
@@ -136,6 +160,18 @@ theorem scale_changes (g g' : Grid) (s : ScaleArg) (hc : g.system = .cartesian) 
     subst h
     exact ⟨ne_of_coords_ne _ _ hne, ne_of_coords_ne _ _ (Ne.symm hne)⟩
 
+/-- **Scaling a polar grid** by `k ≠ 1` changes its identity as soon as some radius is non-zero
+(`PolarGrid.scale` multiplies the radial axis by `k` and the angular axis by one). -/
+theorem polar_scale_changes (g g' : Grid) (k : Rat) (hp : g.system = .polar) (h : g.scale (.scalar k) = some g')
+    (v : Rat) (hv : g.coords.axisHas 0 v) (hv0 : v ≠ 0) (hk : k ≠ 1) : g'.eq g = false ∧ g.eq g' = false := by
+  have hne := Coords.scale_ne g.coords [k, 1] 0 v hv hv0 ⟨k, rfl, hk⟩
+  simp only [Grid.scale, hp, Option.map_eq_some_iff] at h
+  obtain ⟨w, _, rfl⟩ := h
+  exact ⟨ne_of_coords_ne _ _ hne, ne_of_coords_ne _ _ (Ne.symm hne)⟩
+
+example : ∃ g g' : Grid, g.system = .polar ∧ g.scale (.scalar 2) = some g' ∧ g.coords.axisHas 0 (1 / 2) :=
+  ⟨⟨.polar, .unstructured [[1 / 2, 3], [0, 1]], .none⟩, _, rfl, rfl, ⟨[1 / 2, 3], rfl, by simp⟩⟩
+
 /-- **Reversing** changes the identity as soon as one axis is not symmetric under reversal … -/
 theorem reverse_changes (g : Grid) (i : Nat) (h : g.coords.axisAsym i) :
     g.reverse.eq g = false ∧ g.eq g.reverse = false := by
@@ -150,6 +186,43 @@ theorem reverse_reverse_eq (g : Grid) (h : g.coords.WF) :
   simp only [Grid.eq, Grid.reverse, Bool.and_eq_true, decide_eq_true_eq, true_and]
   simp only [Grid.reverse] at this
   rw [this]; exact Coords.eq_self h
+
+/-! ### Floating point: a shift changes the identity exactly when some stored sum changes
+
+`shift_changes` above is about exact arithmetic (the rationals the correspondence feeds are dyadic,
+so that float addition is exact).  On floats `x += b` stores `fl(x + b)`; the statement that holds for
+**every** rounding function `rnd` (round-to-nearest-even binary64 is `roundF64`, executed by the driver
+ops `shiftf` / `shiftedf` and compared bit for bit with the real code) is: -/
+
+/-- **In-place float shift**: the grid stays equal to its former self iff every value the shift rewrites
+(the origin of a regular axis, every coordinate of a separated / unstructured axis) absorbs its shift,
+`fl(x + b_i) = x` — i.e. the identity changes *accordingly*: exactly when the data changes. -/
+theorem shiftF_keeps_iff (rnd : Rat → Rat) (g : Grid) (b : List Rat) (hl : b.length = g.coords.ndim) (hw : g.coords.WF) :
+    (g.shiftR rnd b).eq g = true ↔
+      ∀ i (h1 : i < g.coords.shiftVals.length) (h2 : i < b.length), ∀ x ∈ g.coords.shiftVals[i], rnd (x + b[i]) = x := by
+  rw [Grid.eq_iff (Coords.WF_shiftR rnd g.coords b hl hw)]
+  simp only [Grid.shiftR, true_and]
+  exact Coords.shiftR_eq_self_iff rnd g.coords b hl
+
+/-- with exact arithmetic (`rnd = id`) the float shift is the exact shift of `shift_changes` -/
+theorem shiftF_exact (g : Grid) (b : List Rat) : g.shiftR id b = g.shift b := by
+  simp only [Grid.shiftR, Grid.shift, Coords.shiftR_id]
+
+/-- **The caveat, concretely (binary64)**: a non-zero shift below half an ulp of every coordinate is
+absorbed — the grid still equals its former self and hashes the same — whereas in exact arithmetic
+(`shift_changes`) the same shift changes the identity.  The harness replays exactly this on the real
+code (`g.shifted(2**-54) == g`, same hash). -/
+theorem shiftF_absorbed :
+    ∃ (g : Grid) (b : List Rat), g.coords.WF ∧ b = [1 / 2 ^ 54] ∧
+      (g.shiftR roundF64 b).eq g = true ∧ (g.shiftR roundF64 b).hashInput = g.hashInput ∧
+      (g.shift b).eq g = false :=
+  ⟨⟨.cartesian, .separated [[1, 2, -3 / 2]], .none⟩, _, by decide, rfl, by decide +kernel, by decide +kernel,
+    by decide +kernel⟩
+
+/-- … and a shift of a whole ulp is not: the float model agrees with the exact one there -/
+theorem shiftF_not_absorbed :
+    (Grid.shiftR roundF64 [1 / 2 ^ 52] ⟨.cartesian, .regular [⟨1 / 2, 3, 1⟩], .none⟩).eq
+      ⟨.cartesian, .regular [⟨1 / 2, 3, 1⟩], .none⟩ = false := by decide +kernel
 
 example : (Coords.separated [[0, 1], [5]]).axisHas 0 1 := ⟨[0, 1], rfl, by simp⟩
 example : (Coords.regular [⟨1 / 2, 3, 0⟩]).axisAsym 0 := ⟨⟨1 / 2, 3, 0⟩, rfl, by norm_num⟩
